@@ -38,6 +38,10 @@ type GenReport struct {
 	TimeRewrites   int      `json:"time_rewrites"`
 	GoStmts        int      `json:"go_stmts"`
 	Selects        int      `json:"selects"`
+	GoRewritten    int      `json:"go_stmts_turned_into_tasks"`
+	SyncBracketed  int      `json:"blocking_statements_bracketed"`
+	SyncUnmodelled []string `json:"blocking_operations_not_modelled"`
+	NumCPURewrites int      `json:"numcpu_rewrites"`
 	Uncontrolled   []string `json:"uncontrolled"`
 	PerIterLoopVar bool     `json:"per_iteration_loopvar"`
 	TemplateProbe  bool     `json:"template_probe"`
@@ -265,6 +269,20 @@ func (w *genWalker) run() {
 			w.rep.GoStmts++
 		case *ast.SelectStmt:
 			w.rep.Selects++
+		case *ast.BlockStmt:
+			if len(stack) < 2 {
+				break
+			}
+			switch stack[len(stack)-2].(type) {
+			case *ast.SelectStmt, *ast.SwitchStmt, *ast.TypeSwitchStmt:
+				// the body of a switch/select holds clauses, not statements
+			default:
+				w.concList(x.List)
+			}
+		case *ast.CaseClause:
+			w.concList(x.Body)
+		case *ast.CommClause:
+			w.concList(x.Body)
 		case *ast.FuncDecl:
 			if x.Name.Name == "main" && x.Recv == nil && w.pkg.Name == "main" {
 				w.rep.MainFiles = append(w.rep.MainFiles, w.rel)
@@ -328,6 +346,12 @@ func (w *genWalker) run() {
 					w.needHook = true
 					w.rep.TimeRewrites++
 					rewritten[p]++
+				case p == "runtime" && (sel.Sel.Name == "NumCPU" && len(x.Args) == 0 || sel.Sel.Name == "GOMAXPROCS" && len(x.Args) == 1 && w.text(x.Args[0]) == "0"):
+					// how many processors there are is part of the ambient environment
+					w.es.replace(w.off(x.Pos()), w.off(x.End()), "verifhook.NumCPU()")
+					w.needHook = true
+					w.rep.NumCPURewrites++
+					rewritten[p]++
 				case p == "time" && (sel.Sel.Name == "Now" || sel.Sel.Name == "Since" || sel.Sel.Name == "Until"):
 					w.es.replace(w.off(sel.Pos()), w.off(sel.End()), "verifhook.Time"+sel.Sel.Name)
 					w.needHook = true
@@ -359,6 +383,8 @@ func (w *genWalker) run() {
 				tail += "\nvar _ = " + name + ".Keys[map[string]struct{}]\n"
 			case "context":
 				tail += "\nvar _ " + name + ".Context\n"
+			case "runtime":
+				tail += "\nvar _ = " + name + ".NumCPU\n"
 			}
 		}
 	}
